@@ -12,7 +12,10 @@ schedule quantifier is discharged by a REDUCTION whose premise the solver checks
 lock.<framing>.r<retries>...: the C13 fault harness (symbolic per-attempt transport behaviour, symbolic contents,
 exceptions thrown by the transport) with monitors on every such access. Asserted: at every monitored event exactly
 one lock reachable from the client is owned, it is the same lock at all events of both transactions, and no lock
-is owned after execute() has returned or raised. The lock is found by identity among all threading locks reachable
+is owned after execute() has returned or raised. The calls go through the public BaseModbusClient.execute, from an
+arbitrary client.state (the attribute is shared, so a concurrent caller may see any value).
+prelock-connect.tcp: the connect() that BaseModbusClient.execute makes BEFORE entering the transaction manager is
+outside the lock (listed finding: two threads starting on an unconnected client can replace each other's socket). The lock is found by identity among all threading locks reachable
 from the client and its transaction manager, not by attribute name.
 """
 import threading
@@ -28,7 +31,9 @@ EXPLANATION = ("Lock-discipline premise checked by bounded symbolic model checki
                "faults; the step from the premise to 'all interleavings are serialisable' is a stated reduction, not explored schedules. "
                "A race in code that does not pass through the monitored accesses would not be seen.")
 ASSUMPTIONS = ["reduction: lock discipline on all shared-state accesses + release on every exit => serialisability (paper argument; CPython RLock trusted)",
+               "client.state on entry to the first call is an arbitrary ModbusTransactionState value (what a concurrent thread may have left)",
                "monitored accesses: connect/send/recv/close of the transport, framer addToFrame/resetFrame/advanceFrame/processIncomingPacket, getNextTID, addTransaction, getTransaction",
+               "ModbusTransactionState.to_string (log text) is replaced by a constant",
                "inputs as C13: per-attempt symbolic transport behaviour incl. OSError, retries 0..1"]
 
 _LOCK_TYPES = (type(threading.RLock()), type(threading.Lock()))
@@ -49,13 +54,18 @@ def owned(lock):
     return lock.locked()
 
 
-def make_lock(framing, retries, roe, roi):
+def make_lock(framing, retries, roe, roi, prelock=False):
     ncalls = 1 + retries
 
-    def lock(ch: bytes, u: bytes, v: bytes, g: bytes) -> bool:
+    def lock(ch: bytes, u: bytes, v: bytes, g: bytes, st: int) -> bool:
         import socket
         import pymodbus.factory as F
         assume(len(ch) == 2 * ncalls and len(u) == 2 and len(v) == 4 and len(g) == 6)
+        assume(0 <= st <= 6)            # client.state as another thread may have left it (all ModbusTransactionState values)
+        if framing != "tcp":
+            # the serial framers' sendPacket waits (sleeping) until the state is IDLE / TRANSACTION_COMPLETE, i.e. until the
+            # thread that owns the transaction has finished: with one thread that wait would never end
+            assume((st == 0) | (st == 6))
         unit, other = u[0], u[1]
         assume(1 <= unit <= 247)
         assume(1 <= other <= 247)
@@ -73,9 +83,24 @@ def make_lock(framing, retries, roe, roi):
             explain("no lock reachable from the client")
             return False
         events = []          # (event name, tuple of owned flags per lock)
+        pre = []             # connect() calls made by BaseModbusClient.execute before the transaction manager is entered
+        where = {"in_txn": False}
 
         def note(name):
-            events.append((name, tuple(bool(owned(l)) for l in locks)))
+            flags = tuple(bool(owned(l)) for l in locks)
+            if name == "connect" and not where["in_txn"]:
+                pre.append((name, flags))
+            else:
+                events.append((name, flags))
+        orig_execute = cl.transaction.execute
+
+        def txn_execute(request):
+            where["in_txn"] = True
+            try:
+                return orig_execute(request)
+            finally:
+                where["in_txn"] = False
+        cl.transaction.execute = txn_execute
 
         def wrap(obj, name):
             orig = getattr(obj, name)
@@ -122,12 +147,16 @@ def make_lock(framing, retries, roe, roi):
         for i in range(1, 60):
             cl.faults[("recv", i)] = recv_hook
             cl.faults[("send", i)] = send_hook
+        from pymodbus.utilities import ModbusTransactionState as MTS
+        MTS.to_string = classmethod(lambda cls, state: "<state>")      # log text only (a dict lookup would realise the symbolic state)
         for txn in range(2):
             req = F.ReadHoldingRegistersRequest(txn, 1)
             req.unit_id = unit
             state["tid"] = (cl.transaction.tid + 1) % 65536
+            if txn == 0:
+                cl.state = st
             try:
-                cl.transaction.execute(req)
+                cl.execute(req)             # the public entry point: BaseModbusClient.execute
             except Exception:
                 pass                      # (whether a call may raise is C13's subject; the lock must be released anyway)
             for l in locks:
@@ -136,6 +165,12 @@ def make_lock(framing, retries, roe, roi):
                     return False
         if not events:
             return False
+        if prelock:
+            for name, flags in pre:
+                if sum(1 for f in flags if f) != 1:
+                    explain("BaseModbusClient.execute calls connect() before the transaction lock is taken (owned locks %r)", flags)
+                    return False
+            return True
         the = None
         for name, flags in events:
             if sum(1 for f in flags if f) != 1:
@@ -163,5 +198,8 @@ def obligations(tier):
     for framing, retries, roe, roi in configs:
         out.append(Obl("lock.%s.r%d.e%d.i%d" % (framing, retries, roe, roi), make_lock(framing, retries, roe, roi), timeout=T,
                        contracts=contracts[framing], lemmas=lem[framing],
-                       bounds="%s client, two consecutive transactions, retries=%d: per attempt a symbolic choice among %s (incl. OSError), symbolic contents; lock ownership recorded at every monitored access" % (framing, retries, BEHAVIOURS)))
+                       bounds="%s client, two consecutive client.execute() calls, retries=%d, client.state on entry symbolic (0..6): per attempt a symbolic choice among %s (incl. OSError), symbolic contents; lock ownership recorded at every monitored access (the connect() call that BaseModbusClient.execute makes before entering the transaction manager is the subject of prelock-connect)" % (framing, retries, BEHAVIOURS)))
+    out.append(Obl("prelock-connect.tcp", make_lock("tcp", 0, False, False, prelock=True), timeout=T,
+                   whole_finding="KF-connect-outside-transaction-lock",
+                   bounds="as lock.tcp.r0: the connect() call of BaseModbusClient.execute must be made with the transaction lock owned"))
     return out
